@@ -169,7 +169,7 @@ def validate(workdir, tspec, tcfg, traces, jobs=None, timeout=1800):
         meta = tempfile.mkdtemp(prefix='meta-', dir=workdir)
         # the trace monitors hold one chunk of traces in memory: a few GB of heap are plenty, and eight JVMs
         # with the default (a quarter of the RAM each) have exhausted the machine before
-        env = dict(os.environ, TRACE_FILE=tf, OUT_FILE=of, JAVA_TOOL_OPTIONS=(os.environ.get('JAVA_TOOL_OPTIONS', '') + ' -Xmx4g').strip())
+        env = dict(os.environ, TRACE_FILE=tf, OUT_FILE=of, JAVA_TOOL_OPTIONS=(os.environ.get('JAVA_TOOL_OPTIONS', '') + ' -Xmx4g -Xss512m').strip())
         lf = open(os.path.join(workdir, 'tlc-trace%d.log' % k), 'w')
         p = subprocess.Popen(['timeout', str(timeout), 'tlc', '-workers', '1', '-metadir', meta, '-config', tcfg, tspec],
                              cwd=workdir, env=env, stdout=lf, stderr=subprocess.STDOUT, preexec_fn=_die_with_parent)
